@@ -2,12 +2,18 @@ import LenaModel.DriverUtil
 import LenaModel.Model.C01
 /-! Model driver for C01.  Values: int | "str" | [list] | {"t":[tuple]} | {"d":{dict}} | {"q":[n,d]}.
 Element specs: see `specOf`.  Requests:
-  {"op":"run","prog":[spec..],"flow":[v..]}      Sequence(*prog).run(flow)   (nested {"k":"seq"} = bracketing)
+  {"op":"run","prog":[spec..],"flow":[v..],"term":null|exc}   Sequence(*prog).run(flow)   (nested {"k":"seq"} = bracketing);
+                                                 "term": the input iterator raises this exception after its values
+  {"op":"tree","prog":[spec..],"flow":..}        the same through `Spec.toTree` and `build` (the definitions the
+                                                 regrouping theorems are about)
   {"op":"flat","prog":[spec..],"flow":[v..]}     Sequence(*meta.flatten(Sequence(*prog))).run(flow)
+  {"op":"fold","prog":[spec..],"flow":[v..]}     compose the documented transformations `Element.den` of the flattened
+                                                 data elements (the right-hand side of `run_eq_fold`)
   {"op":"source","args":[spec..]}                Source(*args)()
   {"op":"source_then","args":[..],"prog":[..]}   Sequence(*prog).run(Source(*args)())
   {"op":"flags","spec":spec}                     what the constructors can observe of the object
-Replies: {"r":[v..]} | {"e":<exception>,"phase":"init"|"run"} -/
+Replies: {"r":[v..],"t":null|exc,"eager":bool} (values yielded, how the iteration ended, whether the exception was
+raised by the call itself) | {"e":<exception>,"phase":"init"} -/
 open Lean Lena.Drv Lena.Flow Lena.C01
 
 partial def valueOf (j : Json) : Option Value :=
@@ -33,6 +39,25 @@ partial def valueJson : Value → Json
   | .dict kvs => Json.mkObj [("d", Json.mkObj (kvs.map fun (k, v) => (k, valueJson v)))]
 
 def valuesOf (j : Json) : Option (List Value) := do (← arr? j).toList.mapM valueOf
+
+def excOf : String → Option Exc
+  | "LenaTypeError" => some .lenaTypeError
+  | "LenaValueError" => some .lenaValueError
+  | "LenaStopFill" => some .lenaStopFill
+  | "LenaZeroDivisionError" => some .lenaZeroDivisionError
+  | "LenaAttributeError" => some .lenaAttributeError
+  | "LenaNotImplementedError" => some .lenaNotImplementedError
+  | "Other:TypeError" => some .typeError
+  | "Other:AttributeError" => some .attributeError
+  | "Other:IndexError" => some .indexError
+  | "Other:ValueError" => some .valueError
+  | _ => none
+
+/-- the input flow of a request: "flow" and the optional "term" -/
+def strmOf (j : Json) : Option (Strm Value) := do
+  let vals ← valuesOf (getD j "flow")
+  let t := getD j "term"
+  if t.isNull then some ⟨vals, none⟩ else some ⟨vals, some (← excOf (← str? t))⟩
 
 def fnOf : String → Option Fn
   | "inc" => some .inc | "neg" => some .neg | "mod3" => some .mod3
@@ -85,72 +110,100 @@ partial def specOf (j : Json) : Option Spec :=
     some (.syn (← attrOf (getD j "run")) (← bool? (getD j "call")) (← attrOf (getD j "fill"))
       (← attrOf (getD j "compute")) (← bool? (getD j "nodata")))
   | some "junk" => some .junk
+  | some "setctx" => some .setContext
   | some "gen" => (valuesOf (getD j "flow")).map Spec.gen
   | some "iter" => (valuesOf (getD j "flow")).map Spec.iter
   | _ => none
 
 def specsOf (j : Json) : Option (List Spec) := do (← arr? j).toList.mapM specOf
 
-def excJson (e : Exc) (phase : String) : Json := Json.mkObj [("e", e.name), ("phase", phase)]
+def initErr (e : Exc) : Json := Json.mkObj [("e", e.name), ("phase", "init")]
 
-def outJson : Except Exc (List Value) → Json
-  | .ok ys => Json.mkObj [("r", ofList valueJson ys)]
-  | .error e => excJson e "run"
+def termJson : Option Exc → Json
+  | none => Json.null
+  | some e => Json.str e.name
+
+def outJson : Except Exc (Strm Value) → Json
+  | .ok s => Json.mkObj [("r", ofList valueJson s.vals), ("t", termJson s.term), ("eager", Json.bool false)]
+  | .error e => Json.mkObj [("r", Json.arr #[]), ("t", Json.str e.name), ("eager", Json.bool true)]
 
 def handle (j : Json) : Json :=
   match str? (getD j "op") with
   | some "run" =>
-    match specsOf (getD j "prog"), valuesOf (getD j "flow") with
+    match specsOf (getD j "prog"), strmOf j with
     | some prog, some flow =>
       match Spec.toElement (.seq prog) with
-      | .error e => excJson e "init"
+      | .error e => initErr e
       | .ok s => outJson (s.invokeRun flow)
     | _, _ => err "bad run args"
-  | some "flat" =>
-    match specsOf (getD j "prog"), valuesOf (getD j "flow") with
+  | some "tree" =>
+    match specsOf (getD j "prog"), strmOf j with
     | some prog, some flow =>
-      match Spec.toTree (.seq prog) with
-      | .error e => excJson e "init"
-      | .ok t =>
-        -- the real call needs the constructed nested sequence first
-        match build t with
-        | .error e => excJson e "init"
-        | .ok _ =>
+      match Spec.toElement (.seq prog) with       -- constructor exceptions in Python's evaluation order
+      | .error e => initErr e
+      | .ok _ =>
+        match Spec.toTree (.seq prog) with
+        | .error e => initErr e
+        | .ok t =>
+          match build t with
+          | .error e => initErr e
+          | .ok el => outJson (el.invokeRun flow)
+    | _, _ => err "bad tree args"
+  | some "flat" =>
+    match specsOf (getD j "prog"), strmOf j with
+    | some prog, some flow =>
+      -- the real call needs the constructed nested sequence first
+      match Spec.toElement (.seq prog) with
+      | .error e => initErr e
+      | .ok _ =>
+        match Spec.toTree (.seq prog) with
+        | .error e => initErr e
+        | .ok t =>
           match mkSequence (flatten t) with
-          | .error e => excJson e "init"
+          | .error e => initErr e
           | .ok s => outJson (s.run flow)
     | _, _ => err "bad flat args"
+  | some "fold" =>
+    match specsOf (getD j "prog"), strmOf j with
+    | some prog, some flow =>
+      match Spec.toElement (.seq prog) with
+      | .error e => initErr e
+      | .ok _ =>
+        match Spec.toTree (.seq prog) with
+        | .error e => initErr e
+        | .ok t => outJson (composeS ((dataSeq (flatten t)).map Element.den) flow)
+    | _, _ => err "bad fold args"
   | some "source" =>
     match specsOf (getD j "args") with
     | some args =>
       match Spec.toElements args with
-      | .error e => excJson e "init"
+      | .error e => initErr e
       | .ok es =>
         match mkSource es with
-        | .error e => excJson e "init"
+        | .error e => initErr e
         | .ok src => outJson src.call
     | none => err "bad source args"
   | some "source_then" =>
     match specsOf (getD j "args"), specsOf (getD j "prog") with
     | some args, some prog =>
       match Spec.toElements args with
-      | .error e => excJson e "init"
+      | .error e => initErr e
       | .ok es =>
         match mkSource es with
-        | .error e => excJson e "init"
+        | .error e => initErr e
         | .ok src =>
           match Spec.toElement (.seq prog) with
-          | .error e => excJson e "init"
+          | .error e => initErr e
           | .ok s =>
             match src.call with
-            | .error e => excJson e "run"
+            | .error e => outJson (.error e)
             | .ok flow => outJson (s.invokeRun flow)
     | _, _ => err "bad source_then args"
   | some "flags" =>
     match specOf (getD j "spec") with
     | some sp =>
       match Spec.toElement sp with
-      | .error e => excJson e "init"
+      | .error e => initErr e
       | .ok el => Json.mkObj [("run", ofNat (attrNat el.run)), ("call", Json.bool el.call),
           ("fill", ofNat (attrNat el.fill)), ("compute", ofNat (attrNat el.compute)),
           ("nodata", Json.bool el.hasNoData), ("iter", Json.bool el.hasIter),
